@@ -9,8 +9,9 @@
    implementation (RunC01.v) and by the implementation-side oracle. *)
 From Coq Require Import ZArith List Bool.
 Require Import Base.Bits Base.Iter Base.Wr Gen.Consts Gen.Types Gen.Preds Model.Packet Model.Pes Model.Pool Model.PoolRun
-  Model.Muxer Model.Reader Model.Demux Model.DemuxFull Spec.PesSpec
-  Proofs.LossProofs Proofs.UnitsProofs Proofs.PesRoundTrip Proofs.MuxerProofs.
+  Model.Muxer Model.Reader Model.Demux Model.DemuxFull Spec.MuxSpec Spec.PesSpec Spec.PacketSpec
+  Proofs.LossProofs Proofs.UnitsProofs Proofs.PesRoundTrip Proofs.MuxerProofs Proofs.MuxerPackets Proofs.DemuxProofs
+  Proofs.RoundTripPkt Proofs.RoundTripDemux Proofs.RoundTripUnit Proofs.RoundTripL1 Proofs.RoundTripExamples.
 Import ListNotations.
 Open Scope Z_scope.
 
@@ -38,6 +39,58 @@ Theorem C01_whole_packets : forall p bs, write_packet p C_MpegTsPacketSize = Ok 
   Z.of_nat (length bs) = C_MpegTsPacketSize.
 Proof. intros p bs. exact (write_packet_size p C_MpegTsPacketSize bs). Qed.
 Print Assumptions C01_whole_packets.
+
+(* ---- level 1: one WriteData, demultiplexed alone ----
+   For a reachable muxer state (ms_inv: C04_reachable_inv), a WriteData inside the property's domain
+   (Proofs.RoundTripL1.data_in_domain: PID 0x20..0x1FFE other than 0x1000 with a stream added on it; adaptation field,
+   if any, inside C11's domain with the writer-internal members zero (S1); PES header inside C12's domain once the
+   stream id is filled in; non-empty byte payload) that succeeds without emitting tables, and a demuxer (packet size
+   188) whose reader holds exactly the bytes of that call, whose pool and buffer are empty and whose program map does
+   not contain the PID:  the first NextData returns exactly the PES that was written -- PID, payload bytes, the header
+   with the derived fields a parser fills in (observed_header), and as FirstPacket the header and adaptation field of
+   the unit's first payload packet as parsePacket reports them -- and the next one ErrNoMorePackets. *)
+Theorem C01_roundtrip_one_unit : forall s d s' p ctx h0 data dem,
+  ms_inv s -> data_in_domain s d ctx h0 data -> write_data s d = (s', p) -> pa_res p = Ok tt ->
+  starts_with_tables (pa_pkts p) = false ->
+  (d_pb dem = Some (mk_pbuf 188) \/ (d_pb dem = None /\ d_opt_size dem = 188)) ->
+  reader_ok (d_reader dem) -> r_rest (d_reader dem) = concat (concat (pa_groups p)) ->
+  d_pool dem = [] -> d_buffer dem = [] -> pm_mem (d_pm dem) (MuxerData_PID d) = false ->
+  exists p1 rest dem1 dem2,
+    filter pkt_has_payload (pa_pkts p) = p1 :: rest /\
+    next_data full_parsers None no_skip dem =
+      (Ok (pes_datum (MuxerData_PID d) (obs_pkt p1) (filled_header h0 (ec_es ctx)) data), dem1) /\
+    next_data full_parsers None no_skip dem1 = (Err E_nomore, dem2).
+Proof. exact roundtrip_one_unit. Qed.
+Print Assumptions C01_roundtrip_one_unit.
+
+(* the hypotheses are satisfiable: after Add 0x101 (H.264); SetPCRPID 0x101; WriteData (300 bytes, emits the tables),
+   a second WriteData of 500 bytes with a PTS is in the domain, succeeds and emits no tables (3 packets) *)
+Example C01_roundtrip_one_unit_inhabited :
+  ms_inv rt_state /\ data_in_domain rt_state (rt_data 93600 500) rt_ctx (rt_h0 93600) (rt_payload 500) /\
+  exists s' p, write_data rt_state (rt_data 93600 500) = (s', p) /\ pa_res p = Ok tt /\
+               starts_with_tables (pa_pkts p) = false /\ length (pa_pkts p) = 3%nat.
+Proof.
+  split; [exact rt_state_inv|]. split; [exact rt_domain|].
+  eexists _, _. split; [vm_compute; reflexivity|]. repeat split; reflexivity.
+Qed.
+
+(* the first payload packet is the unit's first packet and carries the caller's adaptation field (stuffing aside)
+   whenever that field leaves room for the PES header *)
+Theorem C01_first_packet : forall pid h af data unit p1 rest,
+  unit_facts pid h af true data unit -> data <> [] -> filter pkt_has_payload unit = p1 :: rest ->
+  (C_MpegTsPacketSize - (1 + C_mpegTsPacketHeaderSize + af_size_opt af) <?
+     C_pesHeaderLength + calcPESOptionalHeaderLength (PESHeader_OptionalHeader h)) = false ->
+  first_ok af p1 /\ exists tl, unit = p1 :: tl.
+Proof. exact first_packet_af. Qed.
+Print Assumptions C01_first_packet.
+
+(* C11 for every packet the Muxer builds (mux_wf: 13-bit PID, adaptation field in C11's domain, byte payload that
+   fits): 188 bytes that parsePacket turns back into the packet, derived fields filled in, counter reduced to its 4 bits,
+   payload followed by the 0xFF fill when it was shorter than the room *)
+Theorem C01_parse_mux_packet : forall q, mux_wf q ->
+  length (pkt_bytes q) = 188%nat /\ bytes_ok (pkt_bytes q) /\ parse_packet_bytes (pkt_bytes q) = Ok (obs_pkt q).
+Proof. exact parse_mux_pkt. Qed.
+Print Assumptions C01_parse_mux_packet.
 
 (* the composed statement (not yet closed as one theorem) *)
 Definition demux_all (bytes : list Z) : list (res DemuxerData) :=
